@@ -567,7 +567,7 @@ pub fn check_main(tier: Tier) -> i32 {
         "episodes_per_hour": (ws.episodes as f64 / wall * 3600.0) as u64,
         "operations": ws.ops,
         "seeds": {"verif_seed": seed, "episode_indices": [0, per * w as u64 - 1]},
-        "simulated_time": "n/a - the crate has no clock; progress is counted in scheduler decisions",
+        "simulated_time": format!("{} clock readings, {:.1} simulated hours (the crate reads no clock on the unchanged tree, so both are 0 there; the facade variant puts std::time on a seeded, jumping clock); progress is otherwise counted in scheduler decisions", ws.sched.clock_reads, ws.sched.simulated_ns as f64 / 3.6e12),
         "scheduler": {"hook_points": ws.sched.points, "decisions": ws.sched.decisions, "context_switches": ws.sched.switches, "switches_inside_an_operation": ws.sched.switches_inside_op},
         "distinct_interleavings_all": traces.len(),
         "faults_fired": {
